@@ -362,14 +362,14 @@ PROPS["C08"] = {
                   "the tolerance >= 0 is split at 1 <= i, i + 1 < n. body_eq / bodyState_inv: the generated body is line | bodyFinish(bodyState), the state being (parameters, the curve generated from them, "
                   "that curve's measured error and index). "
                   "THE KERNEL IS GENERATED TOO (Props/C08Kernel, Gen/FitKernel): generated_fit_curve_spec - THE STATEMENT OF THE PROPERTY FOR THE PUBLIC fit_curve in exact arithmetic: for every list of at least two 2-D points "
-                  "without two equal consecutive points and every max_error, fit_curve returns Some connected chain from the first to the last point (blocks of at most 200 points sharing their boundary point) and every "
-                  "input point is within max_error of one of its curves at a parameter in [0,1]; generated_fit_within_error - for every list of 2-D points without two equal consecutive points, every contiguous slice, tangents and "
+                  "in which no three consecutive points coincide (isolated repeated points allowed) and every max_error, fit_curve returns Some connected chain from the first to the last point (blocks of at most 200 points sharing their boundary point) and every "
+                  "input point is within max_error of one of its curves at a parameter in [0,1]; generated_fit_within_error - for every such list, every contiguous slice, tangents and "
                   "tolerance, EVERY POINT IS WITHIN THE (clamped) TOLERANCE OF ONE OF THE RETURNED CURVES AT A PARAMETER IN [0,1] (the first clause of the property, in exact arithmetic, nothing left as a parameter); "
                   "generated_fit_chain - the same fitter never uses up depth points.length and returns a connected chain from the first to the last point (cubicKnot_chain_inv: the chain theorem with an invariant on "
                   "the parameter list); chords_for_points_spec (one parameter per point, first 0, last 1, all in [0,1]); reparameterize_inv (kept by re-parameterisation about any curve from the first to the last "
                   "point); generate_bezier_ends / generate_bezier_spec (curve from first to last point, inner control points on the tangent rays at non-negative distances which solve the normal equations C.alpha = X "
                   "of the accumulated sums when the determinant and Wu/Barsky tests pass, else a third of the end-point distance); generated_split (a rejected candidate is split at an interior point); "
-                  "fitCubicGen_eq_cubicKnot (what the driver runs bit-exactly against the real code is the object of the theorems). Repeated consecutive points (0/0 in chords_for_points: NaN in IEEE, 0 in a field) "
+                  "fitCubicGen_eq_cubicKnot (what the driver runs bit-exactly against the real code is the object of the theorems). Three or more coincident consecutive points (a slice of one repeated point: 0/0 in chords_for_points, NaN in IEEE, 0 in a field) "
                   "are outside these theorems: covered by the bit-exact mirror (identical / repeated point classes) and C20. "
                   "NOT proved: the quality of generate_bezier's least squares (how often a candidate is accepted, i.e. how many "
                   "curves are returned); the search checks every sample within max_error of the chain by dense sampling + refinement, chain connected bit-exactly, ends exact.",
